@@ -24,6 +24,38 @@ def applyOp (st : Digest × String) (op : String) : Option (Digest × String) :=
       pure (RbModel.Digest.Digest.addArray shifts d gs, rets)
   | _ => none
 
+/-- a coverage table as written in the request: format 1 `g,g,…`, format 2 `a-b,a-b,…`, `-` = empty -/
+def parseCov (fmt items : String) : Option Coverage :=
+  let parts := if items == "-" then [] else splitOn1 items ','
+  match fmt with
+  | "1" => do let gs ← nats parts; pure (.glyphs gs)
+  | "2" => do
+      let rs ← parts.mapM fun p => match splitOn1 p '-' with
+        | [a, b] => do let a ← a.toNat?; let b ← b.toNat?; pure (a, b)
+        | _ => none
+      pure (.ranges rs)
+  | _ => none
+
+/-- the coverage index `Coverage::get` returns; the request gives record `i` of a format 2 table the
+    startCoverageIndex `i`; `checked_add` -/
+def covGet (c : Coverage) (g : Nat) : Option Nat :=
+  match c, c.find g with
+  | _, none => none
+  | .glyphs _, some i => some i
+  | .ranges rs, some i =>
+    match rs[i]? with
+    | some r => if i + (g - r.1) < 65536 then some (i + (g - r.1)) else none
+    | none => none
+
+/-- `<fmt> <items> <fmt> <items> …` -/
+def parseCovs : List String → Option (List Coverage)
+  | [] => some []
+  | fmt :: items :: rest => do
+      let c ← parseCov fmt items
+      let cs ← parseCovs rest
+      pure (c :: cs)
+  | _ => none
+
 def cmds : List String := ["digest"]
 
 def handle (ts : List String) : Option String :=
@@ -48,6 +80,17 @@ def handle (ts : List String) : Option String :=
   | ["hasglyph", a0, a1, a2, g] => do
       let a ← nats [a0, a1, a2]; let g ← g.toNat?
       pure (b2s (RbModel.Digest.Digest.mayHaveGlyph shifts a g))
+  | ["collect", m0, m1, m2, fmt, items] => do
+      let d ← nats [m0, m1, m2]
+      let c ← parseCov fmt items
+      pure (joinNats (collect shifts d c))
+  | "lookupdigest" :: _font :: _table :: _li :: "COVS" :: covs => do
+      let cs ← parseCovs covs
+      pure (joinNats (lookupDigest shifts cs))
+  | ["covget", fmt, items, g] => do
+      let c ← parseCov fmt items
+      let g ← g.toNat?
+      pure (match covGet c g with | some i => toString i | none => "-")
   | ["shifts"] => pure (joinNats shifts)
   | _ => none
 
